@@ -88,7 +88,8 @@ def cases(tier, seed):
                 kw = dict(base, is_pep484_tower=True)
                 out.append((name, h, kw, {'gen': 'c18', 'tier': tier, 'seed': seed, 'name': name, 'mode': 'tower'}))
     # hint overrides
-    step = 1 if tier != 'quick' else 3
+    # thorough: every 4th (hint, override set) pair of the 18 000-hint grammar (~30 000 cases; sized by wall time)
+    step = 4 if tier != 'quick' else 3
     k = 0
     for oi, ov in enumerate(OVERRIDE_SETS):
         keys = [grammar.OVERRIDE_HINTS[a] for a, _ in ov]
